@@ -18,10 +18,10 @@ META = {
         "that iteration's entry, validate_request first; C03.4 an empty response list raises NoMulticallResult "
         "before the list can be returned and that exception and None both map to an empty body; C03.5 the single-entry "
         "dispatcher returns a response object on every path of a call with an id and the literal None on every path of a "
-        "notification, exceptional handlers included (imported from C04.2: exactly one response per non-notification entry)."),
+        "notification, exceptional handlers included (imported from C04.2: exactly one response per non-notification entry).; C03.6 (shared) every message that carries an `id` member, whatever its value, is recognised as a 1.0 message (a 1.0 notification is not answered with an invalid-request error: imported C05.6), and the default JSON backend is called with default options, so the reply assembled per entry can still be serialised as a whole (imported C02.6)"),
     "does_not_decide": "equality of the echoed JSON value after a backend round trip; the client-side pairing by "
                        "position is decided under C01.6.",
-    "rules": {
+    "rules": {"C03.6": "imported C05.6, C02.6", 
         "C03.1": "provenance terms (reaching definitions) of the rpcid argument at each constructor site",
         "C03.2": "provenance of the id along dump -> Payload -> response dict; normalised tests on the id",
         "C03.3": "per-iteration path exploration of the batch loop with an append counter; mutator who-may-call",
@@ -389,6 +389,11 @@ def check(ck):
                            q.loc(fm, n))
     ck.floor("C03.4", 4)
     _c03_5(ck)
+    # ---- C03.6 shared clauses --------------------------------------------------------------------------------------
+    from rules import c05 as _c05, c02 as _c02
+    common.import_rules(ck, _c05, {"C05.6": "C03.6"})
+    common.import_rules(ck, _c02, {"C02.6": "C03.6"})
+    ck.floor("C03.6", 2)
 
 
 def _c03_5(ck):
@@ -442,3 +447,4 @@ def _returned_to_redumping_callers(ck, prog, fi, n, c):
             if t is None or not is_request_id(t, req2):
                 return False
     return True
+
